@@ -52,6 +52,24 @@ def scenarios():
                         yield {"id": cid, "cfg": cfg, "pre": [], "entries": ents}
 
 
+def tdb_scenarios(start):
+    """target.db combined with db lists (several source dbs into one target db; keys made distinct per source db)"""
+    cid = start
+    for mode in ("sync", "restore", "incr"):
+        for tdb in (0, 1):
+            for dbcfg, dbname in DB_CFGS[1:]:
+                cfg = {"mode": mode, "parallel": 2, "tdb": tdb, "key_exists": "none", "target": {"version": "5.0.7"}, "sched": "free",
+                       "filter_lua": False, "fslot": []}
+                cfg.update(dbcfg)
+                ents, eid = [], 0
+                for db in (0, 1, 2, 0, 1):
+                    for k in ("a", "b"):
+                        eid += 1
+                        ents.append({"id": eid, "db": db, "key": "%s%d-%d" % (k, db, eid), "kind": "string", "type": -1})
+                cid += 1
+                yield {"id": cid, "cfg": cfg, "pre": [], "entries": ents}
+
+
 def run(tier, seed, replay=None):
     t0 = time.time()
     verdict = vlib.Verdict(PID)
@@ -69,6 +87,7 @@ def run(tier, seed, replay=None):
             must = [c for c in cases if c["cfg"].get("fkey_white") == ["a"] or (not c["cfg"].get("fkey_white") and not c["cfg"].get("fkey_black") and not c["cfg"]["fslot"])]
             rest = [c for c in cases if c not in must]
             cases = must + rnd.sample(rest, 90)
+        cases += list(tdb_scenarios(100000))
         def extra(ev, c, ent):
             cfg = c["cfg"] if c else {}
             return {"lua_entry": ev["e"] == "done", "key_whitelist": bool(cfg.get("fkey_white")), "filter_lua": cfg.get("filter_lua"),
